@@ -432,6 +432,11 @@ def run(ctx):
     from .c16 import rule_attr_lookup
     rule_attr_lookup(ctx, mir, rid="R08.7")
 
+    # ------------------------------------------------------------------ R08.8 (shared with C11 R11.1)
+    # bail-out content is inserted text too: it must come before the raw remainder (which may end inside a tag or comment)
+    from .c11 import rule_bail_out_sites
+    rule_bail_out_sites(ctx, mir, rid="R08.8")
+
     ctx.not_decided += ["differences between lol-html's tokenizer and other HTML parsers beyond C03", "decoding of the output under another encoding than the document's (cross-encoding confusion)"]
     return ("Writer/reader agreement decided as language inclusions between the serialiser's reject/escape sets (read from the expanded source) and the "
             "tokenizer automaton extracted from the same tree: exhaustive over all 256 bytes for names, values and body text, and a DFA inclusion "
